@@ -239,6 +239,20 @@ Fixpoint written (K0 : list string) (top : bool) (c : pt) : list (string * pt) :
   | Some i => if existsb (String.eqb i) K0 then [] else (i, c) :: below
   | None => below
   end.
+(* the named nodes at which the encoder stops because the storage has their identifier: each must be the stored object *)
+Fixpoint hits (K0 : list string) (top : bool) (c : pt) : list (string * pt) :=
+  let below :=
+    match c with
+    | PSeq _ subs _ _ | PAmc _ subs _ _ _ => flat_map (hits K0 false) subs
+    | PRep _ b _ _ _ | PFor _ b _ _ _ _ | PMap _ b _ _ _ _ | PPar _ b _ | PArith _ b _ _ _ | PRev _ b => hits K0 false b
+    | PAA _ l r _ _ => (hits K0 false l ++ hits K0 false r)%list
+    | _ => []
+    end in
+  if top then below else
+  match pt_id c with
+  | Some i => if existsb (String.eqb i) K0 then [(i, c)] else below
+  | None => below
+  end.
 Fixpoint kput (K : list (string * pt)) (i : string) (p : pt) : list (string * pt) :=
   match K with
   | [] => [(i, p)]
@@ -256,11 +270,22 @@ Definition kstep (K : list (string * pt)) (o : hop) (r : sres) : list (string * 
       end
   | _ => K
   end.
-(* deleting succeeds exactly when the key is there *)
+(* deleting succeeds exactly when the key is there; encoding an encodable tree succeeds when every identifier it meets in the
+   storage is taken by that very object; a store under a taken key succeeds (as a no-op) for that very object *)
+Definition all_encodable' (p : pt) : bool := forallb node_encodable (nodes p).
+Definition kenc_ok (K : list (string * pt)) (p : pt) : bool :=
+  all_encodable' p
+  && forallb (fun h => match lookup (fst h) K with Some q => N.eqb (pt_oid q) (pt_oid (snd h)) | None => false end)
+             (hits (map fst K) true p).
 Definition kres_ok (K : list (string * pt)) (o : hop) (r : sres) : bool :=
   match o with
   | HDel _ k => if has_key k K then sres_eqb r SOk else sres_eqb r SErrKey
-  | _ => true
+  | HOver _ k p => negb (kenc_ok K p) || sres_eqb r SOk
+  | HStore _ k p =>
+      match lookup k K with
+      | Some q => negb (N.eqb (pt_oid q) (pt_oid p)) || sres_eqb r SOk
+      | None => negb (kenc_ok K p) || sres_eqb r SOk
+      end
   end.
 Fixpoint krun (K : list (string * pt)) (ops : list hop) (res : list sres) : list (string * pt) * bool :=
   match ops, res with
@@ -317,7 +342,7 @@ Definition check_spec (c : case) : bool :=
       match impl_loaded with Some q => json_eqb (repr q) (repr expected) && iface_ok | None => false end
   | CHist ops impl_res impl_be finals impl_loads =>
       let '(K, dels_ok) := krun [] ops impl_res in
-      forallb (fun o => Nat.eqb (hop_w o) 0) ops && dels_ok
+      forallb (fun o => Nat.eqb (hop_w o) 0) ops && dels_ok      (* dels_ok: outcomes of deletes, required successes *)
       (* exactly the keys that the protocol leaves; every document well formed and standing alone *)
       && nodup_keys impl_be
       && forallb (fun kv => has_key (fst kv) impl_be) K && forallb (fun kv => has_key (fst kv) K) impl_be
